@@ -47,6 +47,11 @@ func simplifySpecs(thorough bool) []composeSpec {
 			build: func(it *Interp, s *State, ctx *simplifyCtx, _ int) AV {
 				thr := it.freeFloat()
 				ctx.thr, _ = atomOf(it.termOf(thr.(FloatV)))
+				// the property's domain: thresholds >= 0
+				if it.NonNeg == nil {
+					it.NonNeg, it.Positive = map[int]bool{}, map[int]bool{}
+				}
+				it.NonNeg[ctx.thr] = true
 				return PtrV{Cell: it.newCell(s, StructV{Fields: []AV{thr}})}
 			}},
 		{typ: "VisvalingamSimplifier", vars: 6, labels: []string{"default minimum", "keep 2", "keep 3", "keep 5", "VisvalingamKeep(2)", "VisvalingamKeep(3)"},
